@@ -267,6 +267,55 @@ def shared_state(ctx, L):
                     L.bad('F11.shared-state', '%s|default %s' % (f.fq, tgt), f.site(node), 'a mutable default argument is mutated: state leaks '
                           'from one call to the next', ws(unparse(node)))
         L.ok('F11.shared-state', modname + '|module-level mutables', m.rel, 'never mutated inside functions: %s' % sorted(glob))
+        MUT = ('append', 'extend', 'insert', 'pop', 'remove', 'clear', 'update', 'setdefault', 'add', 'discard', 'sort', 'reverse', 'popitem')
+
+        def is_container(v):
+            return isinstance(v, (ast.Dict, ast.List, ast.Set, ast.DictComp, ast.ListComp, ast.SetComp)) or \
+                (isinstance(v, ast.Call) and unparse(v.func) in ('dict', 'list', 'set', 'defaultdict', 'deque', 'collections.defaultdict', 'OrderedDict'))
+        # (e) state held in a closure that outlives the call: a nested function that escapes (is returned) mutates a container of
+        #     its enclosing function - the usual shape of a memoising decorator
+        for f in m.all_funcs():
+            if f.parent is None:
+                continue
+            outer = f.parent
+            conts = set(unparse(a.targets[0]) for a in outer.walk() if isinstance(a, ast.Assign) and isinstance(a.targets[0], ast.Name) and is_container(a.value))
+            escapes = any(isinstance(r, ast.Return) and isinstance(r.value, ast.Name) and r.value.id == f.node.name for r in outer.walk())
+            if not conts or not escapes:
+                continue
+            own = set(f.params) | set(x.id for x in f.walk() if isinstance(x, ast.Name) and isinstance(x.ctx, ast.Store))
+            for node in f.walk():
+                tgt = None
+                if isinstance(node, ast.Call) and isinstance(node.func, ast.Attribute) and isinstance(node.func.value, ast.Name) and node.func.attr in MUT:
+                    tgt = node.func.value.id
+                elif isinstance(node, (ast.Assign, ast.AugAssign, ast.Delete)):
+                    for t in (node.targets if not isinstance(node, ast.AugAssign) else [node.target]):
+                        if isinstance(t, ast.Subscript) and isinstance(t.value, ast.Name):
+                            tgt = t.value.id
+                if tgt in conts and tgt not in own:
+                    n += 1
+                    L.bad('F11.shared-state', '%s|closure %s' % (f.fq, tgt), f.site(node),
+                          '`%s` of %s lives as long as the returned function `%s` and is mutated by it (a memo / cache that survives the '
+                          'call): what is computed for one input can depend on what was compiled before it in the same process'
+                          % (tgt, outer.qualname, f.node.name), ws(unparse(node)))
+        # (f) class-level mutable attributes mutated through an instance: shared by every instance for the life of the process
+        for cq, c in m.classes.items():
+            cattrs = set(t.id for st in c.body if isinstance(st, ast.Assign) and is_container(st.value) for t in st.targets if isinstance(t, ast.Name))
+            if not cattrs:
+                continue
+            for f in m.all_funcs():
+                if f.cls != cq:
+                    continue
+                reset = set(unparse(t)[5:] for a in f.walk() if isinstance(a, ast.Assign) for t in a.targets
+                            if isinstance(t, ast.Attribute) and unparse(t.value) == 'self')
+                for node in f.walk():
+                    if isinstance(node, ast.Call) and isinstance(node.func, ast.Attribute) and node.func.attr in MUT and \
+                            isinstance(node.func.value, ast.Attribute) and unparse(node.func.value.value) in ('self', 'cls', cq) \
+                            and node.func.value.attr in cattrs and node.func.value.attr not in reset:
+                        n += 1
+                        L.bad('F11.shared-state', '%s|class attribute %s' % (f.fq, node.func.value.attr), f.site(node),
+                              'the class-level container `%s.%s` is mutated through an instance: every instance (one parser per file / '
+                              'include) shares it for the whole process, so what is accepted for one file depends on the files seen before'
+                              % (cq, node.func.value.attr), ws(unparse(node)))
     # reused instances: must-reset at the start of each use
     pp = ctx.py.mod('prophyc.parsers.prophy')
     parse = pp.func('Parser.parse')
